@@ -630,3 +630,18 @@ pub fn harness_fail(msg: &str) -> ! {
     eprintln!("HARNESS: {}", msg);
     std::process::exit(2)
 }
+
+/// For failures that cannot be returned through a check (a call that never comes back): writes the
+/// replay file, prints the violation lines and ends the process with 1.
+pub fn emergency_violation(property: &str, check: &str, case: Value, message: &str) -> ! {
+    let digest = h64(&(check, case.to_string()));
+    let dir = format!("{}/replays", VERIF_DIR);
+    let _ = std::fs::create_dir_all(&dir);
+    let path = format!("{}/{}-{}-{:016x}.json", dir, property, check, digest);
+    let body = json!({"property": property, "check": check, "case": case, "message": message});
+    let _ = std::fs::write(&path, serde_json::to_string_pretty(&body).unwrap());
+    // (the evidence file of the last completed run is left as it is: this run covered nothing it could describe)
+    println!("  violation in {}: {}", check, message);
+    println!("VIOLATION property={} replay={}", property, path);
+    std::process::exit(1)
+}
